@@ -46,8 +46,72 @@ Theorem C14_export_table_checks :
   dt_ok = true /\ forallb first_ungated ["Pre"; "Post"; "Start"; "Item"] = true /\ end_first_gate = true.
 Proof. exact (conj dt_ok_true (conj first_ungated_all end_first_gate_true)). Qed.
 
+From Peppi Require Import Gen.ArrowFrame Proofs.ArrowFrameLayout.
+(* ---- the hand-written Arrow glue of Frame / PortData / Data (src/frame/immutable/peppi.rs), regenerated (Gen/ArrowFrame.v) ----
+   the export of the hand model IS the interpretation of the regenerated data_type / into_struct_array tables (children, their
+   order, the version gates around each push, the record each is built from), panics included; [end_present] excludes only
+   frame sets the parser never produces (no End columns from 3.0 on), where the hand model is stricter than the source *)
+Theorem C14_frame_export_from_source : forall v fr, end_present v fr ->
+  arrow_frame v fr = arrow_frame_tbl arrow_frame_data_type arrow_frame_into v fr.
+Proof. exact arrow_frame_from_source. Qed.
+Theorem C14_port_export_from_source : forall v g, arrow_port v g = arrow_port_tbl arrow_port_data_type arrow_port_into v g.
+Proof. exact arrow_port_from_source. Qed.
+Theorem C14_data_export_from_source : forall v name d,
+  arrow_data v name d = arrow_data_tbl arrow_data_data_type arrow_data_into arrow_data_into_validity v name d.
+Proof. exact arrow_data_from_source. Qed.
+(* the children of every successful export are the data_type names whose gates hold at that version, in source order *)
+Theorem C14_children_from_source : forall v fr n kids,
+  arrow_frame v fr = Ok (AStruct "frame" n None kids) -> map child_name kids = active_names v.
+Proof. exact arrow_frame_children_from_source. Qed.
+(* the import (from_struct_array) takes every child back from the position the export put it at, for EVERY version: the asserted
+   (name, index) pairs are the written ones; start / end / item are read at the written positions, an unwritten child lies beyond
+   the end of the values *)
+Theorem C14_import_positions_from_source : forall v,
+  asserted_fields v = written_fields v /\
+  from_lookup arrow_frame_from "id" = Some (FfPrimAt 0 I32) /\ position_of (written_fields v) "id" = Some 0%nat /\
+  from_lookup arrow_frame_from "ports" = Some (FfPortsAt 1) /\ position_of (written_fields v) "ports" = Some 1%nat /\
+  (exists k, from_lookup arrow_frame_from "start" = Some (FfStructGet k "Start") /\
+             match position_of (written_fields v) "start" with
+             | Some p => p = k
+             | None => (List.length (written_fields v) <= k)%nat
+             end) /\
+  (exists g, from_lookup arrow_frame_from "end" = Some (FfStructAtEndIdx "End" g) /\
+             match position_of (written_fields v) "end" with
+             | Some p => end_idx v = Some p
+             | None => end_idx v = None /\ vgte v (fst g) (snd g) = gates_hold v [(2, 2); (3, 0)]%N
+             end) /\
+  from_lookup arrow_frame_from "item_offset" = Some FfListOffsetsAtItemIdx /\
+  from_lookup arrow_frame_from "item" = Some (FfListValuesAtItemIdx "Item") /\
+  match position_of (written_fields v) "item" with
+  | Some p => item_idx v = p
+  | None => (List.length (written_fields v) <= item_idx v)%nat
+  end.
+Proof. exact arrow_frame_from_agrees_with_data_type. Qed.
+(* Data and PortData: the reader takes the children back by the writer's positions and names; port children are named by
+   Display for Port, whose inverse is Port::parse *)
+Theorem C14_data_port_tables_agree :
+  (map fst arrow_data_data_type = map fst arrow_data_into /\
+   map (fun x => (fst (fst x), snd x)) arrow_data_from = arrow_data_into /\
+   map (fun x => snd (fst x)) arrow_data_from = seq 0 (List.length arrow_data_into) /\
+   arrow_data_into_validity = arrow_data_from_validity) /\
+  (map (fun x => (fst (fst x), snd x)) arrow_port_data_type = arrow_port_into /\
+   arrow_port_from_asserts = arrow_port_from /\
+   map (fun x => (fst (fst x), snd x)) arrow_port_from = arrow_port_into /\
+   map (fun x => snd (fst x)) arrow_port_from = seq 0 (List.length arrow_port_into)).
+Proof. exact (conj arrow_data_tables_agree arrow_port_tables_agree). Qed.
+Theorem C14_port_names_from_source :
+  forall p, In p Port_codes -> display_of port_display p = Some (port_name p) /\ parse_of port_parse (port_name p) = Some p.
+Proof. exact port_names_from_source. Qed.
+
 Print Assumptions C14_tables.
 Print Assumptions C14_export_total.
 Print Assumptions C14_export_table_checks.
 Print Assumptions C14_schema_is_spec.
 Print Assumptions C14_positional.
+Print Assumptions C14_frame_export_from_source.
+Print Assumptions C14_port_export_from_source.
+Print Assumptions C14_data_export_from_source.
+Print Assumptions C14_children_from_source.
+Print Assumptions C14_import_positions_from_source.
+Print Assumptions C14_data_port_tables_agree.
+Print Assumptions C14_port_names_from_source.
